@@ -62,7 +62,8 @@ var c13Markers = []string{
 // c13Env is one point of the environment product.
 type c13Env struct {
 	Log      int // 1: run with -log
-	Prior    int // what the output path holds before the run: 0 nothing, 1 a longer stale file
+	Prior    int // what the output path holds before the run: 0 nothing, 1 a longer stale file, 2 the result of an identical earlier run (the tool is run twice, the second run is observed)
+	Print    int // 1: run with -print (compared with the base environment's -print run)
 	Marker   int
 	MapOrder string
 	Place    int // (cwd, spelling)
@@ -119,6 +120,9 @@ func (e *Env) c13Run(base, tag string, in int, env c13Env, countFile string) c13
 	if env.Log == 1 {
 		args = append(args, "-log")
 	}
+	if env.Print == 1 {
+		args = append(args, "-print")
+	}
 	if env.GoFile == 1 {
 		extra = append(extra, "GOFILE="+spelled)
 	} else {
@@ -147,6 +151,10 @@ func (e *Env) c13Run(base, tag string, in int, env c13Env, countFile string) c13
 	cwd := filepath.Join(root, pl.cwd)
 	if filepath.IsAbs(pl.cwd) {
 		cwd = pl.cwd
+	}
+	if env.Prior == 2 {
+		// "two runs over the same sources with the same flags": the first one only leaves its result behind
+		_ = e.Runner.Run(cwd, args, extra...)
 	}
 	res := e.Runner.Run(cwd, args, extra...)
 	ob := c13Obs{Exit: res.Exit, Stdout: res.Stdout, Crashed: res.Crashed() || res.TimedOut}
@@ -262,12 +270,16 @@ func init() {
 		var jobs []job
 		baseEnv := c13Env{Marker: 1, MapOrder: "asc"}
 		refs := make([]c13Obs, len(c13Inputs))
+		refsFlags := make([][4]c13Obs, len(c13Inputs)) // same input, base environment, flag set (-print, -log) of the job: C13 compares runs with the SAME flags
 		loopCounts := map[string][]int{}
 		for in := range c13Inputs {
 			cf := filepath.Join(e.Scratch, fmt.Sprintf("mapcount.%d", in))
 			os.Remove(cf)
 			refs[in] = e.c13Run(base, fmt.Sprintf("ref_%d", in), in, baseEnv, cf)
-			e.Rep.AddTransitions(1)
+			for fl := 1; fl < 4; fl++ {
+				refsFlags[in][fl] = e.c13Run(base, fmt.Sprintf("reff_%d_%d", in, fl), in, c13Env{Marker: 1, MapOrder: "asc", Print: fl & 1, Log: fl >> 1}, "")
+			}
+			e.Rep.AddTransitions(4)
 			var counts []int
 			if b, err := os.ReadFile(cf); err == nil {
 				for _, l := range strings.Fields(string(b)) {
@@ -321,6 +333,20 @@ func init() {
 				}
 			}
 			rec(0, dev, make([]int, len(rad)))
+			// round 5 (C13-m9): the complete product -print x -log x what an earlier run left behind (nothing, a longer stale file,
+			// the result of the identical run) x GOFILE: a second identical run has to say, print and write what the first did
+			for pr := 0; pr < 2; pr++ {
+				for lg := 0; lg < 2; lg++ {
+					for prior := 0; prior < 3; prior++ {
+						for gf := 0; gf < 2; gf++ {
+							if pr == 0 && prior < 2 {
+								continue // without -print and a second run these are among the deviations below
+							}
+							jobs = append(jobs, job{in, c13Env{Marker: 1, MapOrder: "asc", Print: pr, Log: lg, Prior: prior, GoFile: gf}})
+						}
+					}
+				}
+			}
 			// complete sub-product of what decides the loader's view of the package: prior output x GOPACKAGE x sibling file x GOFILE
 			for prior := 0; prior < 2; prior++ {
 				for gp := 0; gp < 3; gp++ {
@@ -344,6 +370,9 @@ func init() {
 			judge := func(tag string) []report.Finding {
 				got := e.c13Run(base, tag, j.in, j.env, "")
 				want := refs[j.in]
+				if j.env.Print == 1 || j.env.Log == 1 {
+					want = refsFlags[j.in][j.env.Print+2*j.env.Log]
+				}
 				var fs []report.Finding
 				var devs []string
 				if j.env.Marker != 1 {
@@ -371,8 +400,14 @@ func init() {
 				if j.env.Tmp == 2 {
 					devs = append(devs, "tmp-on-other-device")
 				}
-				if j.env.Prior != 0 {
+				if j.env.Prior == 1 {
 					devs = append(devs, "prior-output")
+				}
+				if j.env.Prior == 2 {
+					devs = append(devs, "second-identical-run")
+				}
+				if j.env.Print != 0 {
+					devs = append(devs, "print")
 				}
 				if j.env.GoPkg != 0 {
 					devs = append(devs, fmt.Sprintf("gopackage=%d", j.env.GoPkg))
